@@ -76,12 +76,14 @@ Definition net_agents (cs : ncontents) (nodes : list Z) : list Z := flat_map (g_
 
 Inductive nop :=
 | NNbhd (node : Z) (ic : bool) (r : Z)
-| NNbrs (node : Z) (ic : bool) (r : Z).
+| NNbrs (node : Z) (ic : bool) (r : Z)
+| NContents (nodes : list Z).      (* get_cell_list_contents / iter_cell_list_contents over any iterable of nodes *)
 
 Definition nstep (G : graph) (cs : ncontents) (o : nop) : list Z :=
   match o with
   | NNbhd n ic r => let v := net_nbhd G n ic r in (if has_dup v then 1 else 0) :: zsort v
   | NNbrs n ic r => obs_agents (net_agents cs (net_nbhd G n ic r))
+  | NContents l => obs_agents (net_agents cs l)
   end.
 
 (* ---------------- what the correspondence runs ---------------- *)
